@@ -11,10 +11,10 @@ claim('C06', 'Verus contracts on Var (typed store / zero default / slot freeing 
       V + ': store never keeps a value of another type, converts as assignment, frees default values, touches no other variable; fetch of an unassigned name reads the zero of its type; SWAP rejects mixed types without assigning. Arrays (build_array_key) are not decided.',
       'DESIGN.md §7 C06')
 claim('C09', 'Verus contracts on READ / RESTORE / CLEAR handlers against the data pointer',
-      V + ': READ delivers data[data_pos] and advances, past the end OUT OF DATA with nothing changed, RESTORE and CLEAR reposition. The data segment layout produced by the linker is assumed in this unit.',
+      V + ': READ delivers data[data_pos] and advances, past the end OUT OF DATA with nothing changed, RESTORE and CLEAR reposition. The data segment layout is decided where the linker builds it: DATA constants (literal or negated literal) go to the end of the data segment in order (transform_to_data), line symbols record the data address, append re-bases data addresses by the data length, link resolves RESTORE n to the data address of line symbol n.',
       'DESIGN.md §7 C09')
 claim('C10', 'Verus contracts on DEF (binding, ILLEGAL DIRECT) and RETURN (one value survives)',
-      V + ': DEF binds (arity, body address) only inside a program; RETURN keeps exactly the function value above the return address. Call-site argument order (Drain iterator) is not decided.',
+      V + ': DEF binds (arity, body address) only inside a program; RETURN keeps exactly the function value above the return address. The code shape of a definition (count, Def, jump over the body, one Pop per parameter in order, body, Return, skip label) is proved for push_def_fn. Call-site argument order (Drain + Rev iterator) is not decided.',
       'DESIGN.md §7 C10')
 claim('C12', 'Verus contracts on CLEAR / NEW / Var::clear: every run-relevant field back to start-up value',
       V + ': stack, variables, arrays, user functions, CONT point and DATA position are reset, the stored program and its compilation are framed out; NEW additionally empties the listing. DEFtype table reset and RNG reseed are not decided.',
@@ -44,16 +44,18 @@ claim('C08', 'Kani function contracts, all 2^32 Integer operand pairs symbolical
 claim('C11', 'Verus contracts on TAB / SPC / POS (14-column zone arithmetic) and the prompt column reset',
       V + ': TAB(t) pads to column t or not at all, the comma form (negative t) advances to the next multiple of |t| by 1..|t| spaces, SPC(n) is n spaces, POS is the cursor column, |t|, n > 255 is OVERFLOW. Not decided: number formatting, print-list desugaring, the column bookkeeping loop of PRINT.',
       'DESIGN.md §7 C11')
-claim('C20', 'Verus contracts on symbol allocation and symbolic branch emission in the linker, and on direct-line entry',
-      V + ': every branch is emitted against a symbol (the line number itself for GOTO / GOSUB / RESTORE / RUN, a fresh negative symbol for local labels), symbols record (code, data) positions, local symbols are fresh, a direct line is compiled after the program without touching it. The re-basing loop of Link::append and the resolution loop of Link::link iterate std maps by value and are assumed, not proved.',
+claim('C20', 'Verus contracts on symbol allocation, symbolic branch emission, fragment appending (re-basing) and symbol resolution in the linker, and on direct-line entry',
+      V + ': every branch is emitted against a symbol (the line number itself for GOTO / GOSUB / RESTORE / RUN, a fresh negative symbol for local labels), symbols record (code, data) positions, local symbols are fresh, a direct line is compiled after the program without touching it. Link::append re-bases every code / data address by the segment lengths and every local symbol by the allocation mark (symbol table, pending operands, WHILE / WEND records: all entries, nothing else), WHILE / WEND records are paired like brackets, and Link::link replaces every symbolic operand by the address its symbol stands for, leaves every other instruction alone and drops the local symbols. The for-loops over by-value map iterators and Drain are verified in their language-defined desugaring against assumed specifications of the std iterators (listed in the evidence).',
       'DESIGN.md §7 C20')
 claim('C07', 'Verus contracts on LEN / SPC / the 255-character store limit + bounded Kani harnesses for LEFT$ / RIGHT$ / MID$',
       V + ': LEN counts characters, SPC(n) is n spaces or OVERFLOW, a stored string has at most 255 characters (STRING TOO LONG otherwise, also for DEFSTR-typed names). BOUNDED stand-in (Kani, labelled bounded in the evidence, never counted as proved): LEFT$, RIGHT$ and two-argument MID$ on the fixed strings "", "a", "ab", "e-acute", "a e-acute" for every length / position in {-1..5, 254, 255, 256, 32766, 32767} return exactly the documented characters. Not decided: INSTR, three-argument MID$, MID$ assignment, STR$/VAL/HEX$/OCT$, comparison (str slicing results are unspecified in this vstd; CBMC aborts on the larger harnesses).',
       'DESIGN.md §7 C07')
+claim('C19', 'Verus contracts on the link-time diagnostics: columns recorded at emission, kept by append, reported by link / link_whiles; direct-line execution gate',
+      V + ': every branch records the column of its line-number operand (WHILE / WEND: of the keyword), Link::append keeps it while re-basing, Link::link reports UNDEFINED LINE exactly for operands whose line symbol does not exist, at that column, and nothing spurious (every diagnostic is justified by an unresolvable operand or an unmatched WHILE / WEND record, matched like brackets); Program::clear forgets old diagnostics; a direct line with errors runs nothing. Not decided: parser column tracking, the display shift by the line-number prefix, which line an address belongs to (line_number_for is assumed), the run-time gate inside execute_loop.',
+      'DESIGN.md §7 C19')
 na('C05', 'Relates lex, Display for Token/Line and lex again; Display output reached through to_string() is an uninterpreted string in Verus and Kani does not finish on 2-character strings (measured): no contract within reach can state it over the real code. See DESIGN.md §7 C05.')
 for _p, _r in [
     ('C14', 'only the RENUM guards (ILLEGAL DIRECT, compile errors, dirty flag) are under contract; the change-map loop and the textual splice are not: not claimed'),
     ('C16', 'the lexer unit proves termination and panic-freedom only; case-insensitivity of the scanners is a relational property that needs a spec of the literal grammar (not built): not claimed'),
-    ('C19', 'the link-time diagnostics are produced inside Link::link / link_whiles, which iterate std maps by value (no Verus iterator specification): only the recording of columns at emission is under contract: not claimed'),
 ]:
     na(_p, _r)
